@@ -133,6 +133,13 @@ func genDecide(seed uint64, n int, out string) {
 			}
 		}
 		o.Line("eval")
+		if r.Chance(1, 2) {
+			// fields outside the listed inputs: the decision must not move
+			o.Line("irr", wire.Enc(string(wire.Pick(r, dnsPolicies))), wire.B(r.Chance(1, 2)), wire.B(r.Chance(1, 2)),
+				wire.Enc(wire.Pick(r, []string{"", "p", "istio-proxy"})), wire.Enc(wire.Pick(r, []string{"", "sa"})),
+				wire.Enc(wire.Pick(r, []string{"", "sidecar", "gateway", "nonexistent"})), wire.B(r.Chance(1, 3)))
+			o.Line("eval")
+		}
 	}
 }
 
@@ -258,6 +265,26 @@ func (st *decideState) step(toks []string) (out string) {
 			st.cfg.AlwaysInjectSelector = append(st.cfg.AlwaysInjectSelector, sel)
 		}
 		return selStatus(sel, st.meta.Labels)
+	case "irr":
+		// irr <dnsPolicy> <hostPID> <hostIPC> <name> <serviceAccount> <templates-annotation> <own istio-proxy container>
+		if len(toks) != 8 {
+			return "bad-op"
+		}
+		st.spec.DNSPolicy = corev1.DNSPolicy(wire.Dec(toks[1]))
+		st.spec.HostPID, st.spec.HostIPC = toks[2] == "1", toks[3] == "1"
+		st.meta.Name = wire.Dec(toks[4])
+		st.spec.ServiceAccountName = wire.Dec(toks[5])
+		if t := wire.Dec(toks[6]); t != "" {
+			if st.meta.Annotations == nil {
+				st.meta.Annotations = map[string]string{}
+			}
+			st.meta.Annotations["inject.istio.io/templates"] = t
+		}
+		if toks[7] == "1" {
+			st.spec.Containers = []corev1.Container{{Name: "istio-proxy", Image: "auto"}}
+		}
+		st.cfg.DefaultTemplates = []string{"sidecar"}
+		return "ok"
 	case "eval":
 		cfg := st.cfg
 		return wire.B(inject.VerifInjectRequired(inject.IgnoredNamespaces.UnsortedList(), &cfg, &st.spec, st.meta))
